@@ -28,6 +28,10 @@ def rule_attr_unescape(chk, fb, rid_prefix):
             fl = Flow(fb, b)
             un = [a for a in fl.atoms(0) if a[0] == "call" and ("escape::unescape" in a[1] or a[1].endswith("unescape_value") or a[1].endswith("decode_and_unescape_value"))]
             n_un = len({a[2] for a in un})
+            # ... and nothing else happens to the value on the way: no trimming, no case folding, no slicing
+            edits = sorted({t.get("fn", "").split("::")[-1] for bd in [d] + [c for c in fb.mir if c.startswith(d + "::{closure")] for _, t in fb.calls_in(fb.mir[bd])
+                            if t.get("fn", "").split("::")[-1] in ("trim", "trim_start", "trim_end", "trim_matches", "to_lowercase", "to_uppercase", "to_ascii_lowercase", "to_ascii_uppercase", "truncate", "split_at", "strip_prefix", "strip_suffix", "replace")})
+            chk.ob(rid, "central-verbatim:%s" % d, not edits, where=fb.loc(d), detail="the extractor hands the decoded value on as it is: %s" % ("yes" if not edits else "NO - it also applies %s (format codes, names and texts with significant blanks or case are altered on load)" % edits))
             chk.touch(d)
             chk.ob(rid, "central:%s" % d, n_un == 1, where=fb.loc(d), detail="the returned string derives from %d unescape call(s) on the attribute value (needs exactly 1): entities such as &amp; are %s" % (n_un, "decoded once" if n_un == 1 else ("NOT decoded" if n_un == 0 else "decoded more than once")))
         elif parent in VALUE_EXCEPTIONS:
